@@ -16,6 +16,16 @@ fn keys(path: &str, tree: &Tree, cj: &dyn Fn() -> Json) -> Result<[u8; 8], crate
     let k_const = no_panic(|| verif_hash_static(path, st)).map_err(|p| fail("key", format!("compile-time hasher panicked: {}", p), cj()))?;
     let k_owned = no_panic(|| Key::for_owned_schema_path(path, &owned).to_bytes()).map_err(|p| fail("key", format!("run-time hasher panicked: {}", p), cj()))?;
     let k_ref = schematree::ref_key(path, tree);
+    // "the owned schema" of a static one is its conversion: the run-time key of that must be the compile-time key too
+    let converted = no_panic(|| postcard_schema::schema::owned::OwnedDataModelType::from(st)).map_err(|p| fail("key", format!("conversion panicked: {}", p), cj()))?;
+    let k_conv = no_panic(|| Key::for_owned_schema_path(path, &converted).to_bytes()).map_err(|p| fail("key", format!("run-time hasher panicked: {}", p), cj()))?;
+    if k_const != k_conv {
+        return Err(fail(
+            "key",
+            format!("compile-time hasher gives {} but the run-time hasher on the owned conversion of the same schema gives {}", hex(&k_const), hex(&k_conv)),
+            cj(),
+        ));
+    }
     if k_const != k_owned {
         return Err(fail("key", format!("compile-time hasher gives {} but the run-time hasher gives {}", hex(&k_const), hex(&k_owned)), cj()));
     }
